@@ -90,7 +90,7 @@ def rule_x(p):
 
 
 FORBIDDEN_TOKENS = re.compile(r"\b(HashMap|HashSet|RandomState|SystemTime|Instant|thread_rng|UNIX_EPOCH)\b|\bstd::(time|thread|env|process)\b|\brand::|\{:p\}|\*\s*const\b|\*\s*mut\s+\w|\bas_ptr\b|\baddr_of|\.addr\(\)|\btransmute\b")
-ALLOWED_FIELD_TYPES = re.compile(r"^(PrefixTree\d|BTreeMap<u32,Vec<\[u32;\d+\]>>|Unification<\w+>|Vec<\w+>|bool|ModelDelta)$")
+ALLOWED_FIELD_TYPES = re.compile(r"^(PrefixTree\d+|BTreeMap<u32,Vec<\[u32;\d+\]>>|Unification<\w+>|Vec<\w+>|bool|ModelDelta)$")
 
 
 def rule_det_emitted(p):
